@@ -21,12 +21,14 @@ class AnalysisError(Exception):
 
 
 class Module:
-    def __init__(self, root: str, rel: str):
+    def __init__(self, root: str, rel: str, src: Optional[str] = None):
         self.root = root
         self.rel = rel
         self.path = os.path.join(root, rel)
-        with open(self.path, "r", encoding="utf-8") as f:
-            self.src = f.read()
+        if src is None:
+            with open(self.path, "r", encoding="utf-8") as f:
+                src = f.read()
+        self.src = src
         self.digest = hashlib.sha256(self.src.encode("utf-8")).hexdigest()[:16]
         try:
             self.tree = ast.parse(self.src, filename=self.path)
@@ -127,8 +129,11 @@ class Repo:
 
     PY_DIRS = ("cspuz", "bench", "tests")
 
-    def __init__(self, root: str):
+    def __init__(self, root: str, overrides: Optional[Dict[str, str]] = None):
+        """``overrides`` maps a relative path to replacement source text (used only by the self-validation
+        of the rules: a mutant of one file is analysed without copying the tree)."""
         self.root = os.path.abspath(root)
+        self.overrides = dict(overrides or {})
         if not os.path.isdir(os.path.join(self.root, "cspuz")):
             raise AnalysisError(f"{root}: no cspuz package found")
         self.modules: Dict[str, Module] = {}
@@ -139,7 +144,7 @@ class Repo:
                 for fn in sorted(filenames):
                     if fn.endswith(".py"):
                         rel = os.path.relpath(os.path.join(dirpath, fn), self.root)
-                        self.modules[rel] = Module(self.root, rel)
+                        self.modules[rel] = Module(self.root, rel, self.overrides.get(rel))
         self._java: Optional[str] = None
 
     def mod(self, rel: str) -> Module:
@@ -160,6 +165,8 @@ class Repo:
     JAVA = "sugar_extension/CspuzSugarInterface.java"
 
     def java_src(self) -> str:
+        if self._java is None and self.JAVA in self.overrides:
+            self._java = self.overrides[self.JAVA]
         if self._java is None:
             p = os.path.join(self.root, self.JAVA)
             if not os.path.exists(p):
@@ -169,6 +176,8 @@ class Repo:
         return self._java
 
     def read_text(self, rel: str) -> str:
+        if rel in self.overrides:
+            return self.overrides[rel]
         p = os.path.join(self.root, rel)
         if not os.path.exists(p):
             raise AnalysisError(f"anchor vanished: file {rel}")
